@@ -239,8 +239,8 @@ func (s *PrecompileTestSuite) TestVerifReplayStakingPrecompile() {
 	out := spOut{Verdict: "NOT-REPRODUCED", Bound: fmt.Sprintf("%d whole-transaction scenarios of staking.delegate (who calls x whose coins x transaction value)", len(scenarios))}
 	var firstKnown *spOut
 	for _, sc := range scenarios {
-		if req.Property != "" && (req.Property == "C05") != sc.Revert {
-			continue // frame-revert scenarios test C05, the others C02
+		if req.Property != "" && !((req.Property == "C05" && sc.Revert) || (req.Property == "C02" && !sc.Revert)) {
+			continue // frame-revert scenarios test C05, the others C02; no scenario speaks about another property
 		}
 		out.Cases++
 		bad := s.spRun(sc)
@@ -265,7 +265,7 @@ func (s *PrecompileTestSuite) TestVerifReplayStakingPrecompile() {
 		break
 	}
 	// the flush-then-revert history (tests C05; its effect on the supply makes it a C02 history too)
-	if out.Verdict != "REPRODUCED" || out.KnownID != "" {
+	if (req.Property == "" || req.Property == "C02" || req.Property == "C05") && (out.Verdict != "REPRODUCED" || out.KnownID != "") {
 		const name = "a helper called with value 5 queries the precompile and reverts; its caller catches the failure"
 		out.Cases++
 		bad := s.spRunHelperRevert()
